@@ -532,6 +532,14 @@ class ProblemTable:
             lower_pos = orig_positions.get(lower_idx)
             self._insert_mid_block(new_data, positions, upper_pos, lower_pos)
 
+        # 7) Re-derive interval widths and enthalpy changes from the final row order.
+        delta_idx = self.col_index[PT.DELTA_T.value]
+        new_data[1:, delta_idx] = new_data[:-1, T_idx] - new_data[1:, T_idx]
+        for cp_key, dh_key in HEAT_CAPACITY_PAIRS:
+            cp_idx = self.col_index[cp_key]
+            dh_idx = self.col_index[dh_key]
+            new_data[1:, dh_idx] = new_data[1:, delta_idx] * new_data[1:, cp_idx]
+
         return new_data, inserted_total
 
     def _build_mid_block(
